@@ -145,5 +145,25 @@ theorem geomDelta_le (delta rho dist : ℝ) :
     exact Or.inl this
   · simp only [realRadOps]; norm_num
 
+/-- `calculate_ratio` exits exactly when the predicted reduction is negative -/
+theorem calcRatio_exit_iff {F : Type} (o : RadOps F) (pred actual : F) (nproj : Nat) :
+    (calcRatio o pred actual nproj).2 = none ↔ o.lt pred (o.lit 0 0) = false := by
+  simp only [calcRatio]
+  cases o.lt pred (o.lit 0 0) <;> simp <;> split <;> simp
+
+/-- exact arithmetic: when `calculate_ratio` does not exit and the division is defined (`pred ≠ 0`), the
+    incumbent's row is open for replacement (`ratio > 0`) only if the trial point is strictly better
+    (`actual_reduction > 0`) -/
+theorem mayReplaceKopt_imp_decrease (pred actual : ℝ) (nproj : Nat)
+    (hex : (calcRatio realRadOps pred actual nproj).2 = none) (hp : pred ≠ 0)
+    (hr : mayReplaceKopt realRadOps (calcRatio realRadOps pred actual nproj).1 = true) : 0 < actual := by
+  have hnn : ¬ pred < 0 := by
+    have := (calcRatio_exit_iff realRadOps pred actual nproj).mp hex
+    simpa [realRadOps] using this
+  have hpos : 0 < pred := lt_of_le_of_ne (not_lt.mp hnn) (Ne.symm hp)
+  simp only [mayReplaceKopt, calcRatio, realRadOps, decide_eq_true_eq] at hr
+  have hr' : 0 < actual / pred := by simpa using hr
+  exact (div_pos_iff_of_pos_right hpos).mp hr'
+
 end Radius
 end Dfols
